@@ -63,6 +63,16 @@ func encodeInto(e uri.Encoder, shape int, v shapeVal) error {
 			return nil
 		})
 	default:
+		if len(v.fields) == 0 {
+			// generated EncodeURI calls EncodeField for every declared property; an unset optional property's
+			// callback encodes nothing
+			for _, n := range nameSets[0] {
+				if err := e.EncodeField(n, func(e uri.Encoder) error { return nil }); err != nil {
+					return err
+				}
+			}
+			return nil
+		}
 		for _, f := range v.fields {
 			f := f
 			if err := e.EncodeField(f.Name, func(e uri.Encoder) error { return e.EncodeValue(f.Value) }); err != nil {
@@ -370,8 +380,14 @@ func buildValue(shape, l1, l2, l3, nameset int) (shapeVal, bool) {
 			v.items = append(v.items, zz.String(l))
 		}
 	default:
-		if l1 < 0 || l3 >= 0 {
+		if l3 >= 0 || (l1 < 0 && l2 >= 0) {
 			return v, false
+		}
+		if l1 < 0 {
+			// an object none of whose (optional) fields is set: generated EncodeURI then calls EncodeObject with
+			// an empty field list
+			v.fields = []uri.Field{}
+			return v, nameset == 0
 		}
 		names := nameSets[nameset]
 		v.fields = append(v.fields, uri.Field{Name: names[0], Value: zz.String(l1)})
@@ -417,6 +433,7 @@ func HCodec(loc, style, exp, shape, l1, l2, l3, nameset int) {
 			plain = zz.And(plain, allUnreserved(it))
 		}
 	default:
+		nonEmpty = len(v.fields) > 0 // an object with no field set is, like the empty array, outside the core domain
 		for _, f := range v.fields {
 			if len(f.Value) == 0 {
 				nonEmpty = false
